@@ -546,8 +546,8 @@ def convention_names(c: int, order: bool) -> bool:
 
 
 # ------------------------------------------------------------------ keyword names reach **kwargs collectors verbatim
-KW_NAMES = ['x', 'x_', 'x__', 'a_b', 'a_b_', 'from_', 'to_', 'format_', 'k_1', 'X_']
-KW_TEXTS = [('let({n} => 1) -> ${n}', 1), ('call(let, [], {{{n} => 1}}) -> ${n}', 1), ('def(f, ${n} * 2) -> f({n} => 4)', 8),
+VERBATIM_NAMES = ['x', 'x_', 'x__', 'a_b', 'a_b_', 'from_', 'to_', 'format_', 'k_1', 'X_']
+VERBATIM_TEXTS = [('let({n} => 1) -> ${n}', 1), ('call(let, [], {{{n} => 1}}) -> ${n}', 1), ('def(f, ${n} * 2) -> f({n} => 4)', 8),
             ('def(f, ${n} * 2) -> call(f, [], {{{n} => 4}})', 8), ('let({n} => 2, zz => 3) -> [${n}, $zz]', [2, 3]),
             ('dict({n} => 1).keys().toList()', ['{n}']), ('let({n} => 1) -> let(q => 2) -> ${n}', 1)]
 KNBOX = [(i,) for i in range(12)]
@@ -555,12 +555,12 @@ KNBOX = [(i,) for i in range(12)]
 
 def kwargs_names(n: int, t: int) -> bool:
     """
-    pre: 0 <= n < len(KW_NAMES) and 0 <= t < len(KW_TEXTS)
+    pre: 0 <= n < len(VERBATIM_NAMES) and 0 <= t < len(VERBATIM_TEXTS)
     post: _
     """
     # a keyword written in an expression (name => value) and the same keyword handed to call() reach a function that
     # collects **kwargs (let, def-defined functions, dict) under exactly the name written
-    name, (tpl, want) = KW_NAMES[KNBOX[n][0]], KW_TEXTS[KNBOX[t][0]]
+    name, (tpl, want) = VERBATIM_NAMES[KNBOX[n][0]], VERBATIM_TEXTS[KNBOX[t][0]]
     with H.NoTracing():
         got = outcome(tpl.format(n=name), {}, G.ROOT.create_child_context())
         if isinstance(want, list):
@@ -584,7 +584,7 @@ def conditions(tier, seed):
            {'name': 'kwargs_names', 'func': 'kwargs_names', 'timeout': 200,
             'bounds': '%d keyword names (trailing / inner underscores, digits, upper case) x %d expressions handing them to **kwargs '
                       'collectors (let, def-defined functions, dict) in expression syntax and through call(): the name arrives verbatim'
-                      % (len(KW_NAMES), len(KW_TEXTS))},
+                      % (len(VERBATIM_NAMES), len(VERBATIM_TEXTS))},
            {'name': 'convention_names', 'func': 'convention_names', 'timeout': 200,
             'bounds': 'standard contexts created with the CamelCase and the Python naming convention in one process (both creation '
                       'orders of use): keyword names of multi-word parameters follow the context\'s own convention'}]
@@ -725,10 +725,10 @@ def replay(cond, args):
                 'what': '%s evaluated in host context #%d (0 plain child, 1-2 MultiContext, 3 LinkedContext): expected %r' % (
                     KIND_TEXTS[args['t']][0], args['c'], KIND_TEXTS[args['t']][1])}
     if cond['func'] == 'kwargs_names':
-        text = KW_TEXTS[args['t']][0].format(n=KW_NAMES[args['n']])
+        text = VERBATIM_TEXTS[args['t']][0].format(n=VERBATIM_NAMES[args['n']])
         return {'reproduced': not kwargs_names(**args), 'key': 'C12/kwargs-names',
                 'what': '%s gives %r: the keyword name does not arrive as written (expected %r)' % (
-                    text, outcome(text, {}, G.ROOT.create_child_context()), KW_TEXTS[args['t']][1])}
+                    text, outcome(text, {}, G.ROOT.create_child_context()), VERBATIM_TEXTS[args['t']][1])}
     if cond['func'] == 'convention_names':
         return {'reproduced': True, 'key': 'C12/convention-names',
                 'what': 'keyword names of %r do not follow the naming convention of the context they are evaluated in (contexts '
